@@ -406,11 +406,13 @@ var _ = net.Dial
 
 func TestC17(t *testing.T) {
 	defer stopSizeRigs()
-	rec.SetRule("rate: one stack per case with fast limits (300..1200/min, burst 1..10, optional global limit); 1..8 concurrent senders each with its own connection(s), keep-alive on/off, proxy/provider/Anthropic/mixed routes, interleaved /internal/health; admitted = requests that reached the recording backend, judged against burst + rate x t + 1 over the over-estimated window [first send, last receive]; refusals must be 429. size: bodies at limit-1, limit, limit+1, 5x limit with Content-Length or chunked framing against max_body_size {1 KiB, 64 KiB} and Anthropic max_message_size {4 KiB, 1 MiB}. non-trivial = >=3x the allowed volume offered over >=2 connections (rate) / chunked body above the limit (size); distinct by case")
-	rec.Assume("all senders share one client IP (127.0.0.1); the admission window is over-estimated, so a slow machine only loosens the bound")
-	if ev.Replay(t, rec, "rate", runRate) || ev.Replay(t, rec, "size", runSize) {
+	defer stopFirstRigs()
+	rec.SetRule("rate: one stack per case with fast limits (300..1200/min, burst 1..10, optional global limit); 1..8 concurrent senders each with its own connection(s), keep-alive on/off, proxy/provider/Anthropic/mixed routes, interleaved /internal/health; admitted = requests that reached the recording backend, judged against burst + rate x t + 1 over the over-estimated window [first send, last receive]; refusals must be 429. first: 2..12 requests fired at the same instant over pre-established connections from a client address the limiter has never seen (a fresh 127.a.b.c per case), limit 1/min, burst 1..3: at most burst may be admitted. size: bodies at limit-1, limit, limit+1, 5x limit with Content-Length or chunked framing against max_body_size {1 KiB, 64 KiB} and Anthropic max_message_size {4 KiB, 1 MiB}. non-trivial = >=3x the allowed volume offered over >=2 connections (rate) / chunked body above the limit (size); distinct by case")
+	rec.Assume("rate: all senders share one client IP (127.0.0.1); the admission window is over-estimated, so a slow machine only loosens the bound")
+	if ev.Replay(t, rec, "rate", runRate) || ev.Replay(t, rec, "size", runSize) || ev.Replay(t, rec, "first", runFirst) {
 		return
 	}
 	ev.Check(t, rec, "rate", rec.Pick(24, 300), genRate, runRate)
 	ev.Check(t, rec, "size", rec.Pick(200, 4000), genSize, runSize)
+	ev.Check(t, rec, "first", rec.Pick(1500, 40000), genFirst, runFirst)
 }
